@@ -268,18 +268,15 @@ class FuncContent:
                 for expanded_command in self.expanded_commands:
                     if not expanded_command:
                         continue  # a statement that expanded to nothing: there is nothing to prefix
-                    if expanded_command.startswith("execute"):
+                    if (
+                        expanded_command.startswith("execute ")
+                        and "\n" not in expanded_command
+                    ):
+                        # `execute A run execute B` is merged into `execute A B`; only a single command can be merged
+                        # (a multi-line one becomes a private function below and keeps all of its lines intact)
                         expanded_command = expanded_command[len("execute") + 1 :]
                         self.command_strings.append(
-                            " ".join(self.__commands[:-1])
-                            + " "
-                            + (
-                                expanded_command
-                                if "\n" not in expanded_command
-                                else self.lexer.datapack.add_private_function(
-                                    "expand", expanded_command
-                                )
-                            )
+                            " ".join(self.__commands[:-1]) + " " + expanded_command
                         )
                     else:
                         self.command_strings.append(
